@@ -242,6 +242,38 @@ def correspond(ctx, scale):
                     fail('simvq:gradient-leaks-between-positions', 'SimVQ: output at one position depends on another position', {})
         if not rot and not torch.allclose(J[0, 0, :, 0, 0, :], torch.eye(3), atol=1e-6):
             fail('simvq:ste-not-identity', 'SimVQ (straight-through): Jacobian is not the identity', {})
+    # ------------------------------------------------------------------ parameters frozen by the caller (requires_grad_(False): a frozen tokenizer behind a
+    # trainable encoder): the gradient that reaches the INPUT is the same as with trainable parameters - whether anything else needs a gradient is
+    # not a reason to skip the straight-through / rotation step
+    import copy as _copy
+    frozen_mk = [('simvq-ste', lambda: SimVQ(dim=3, codebook_size=5, rotation_trick=False)), ('simvq-rot', lambda: SimVQ(dim=3, codebook_size=5, rotation_trick=True)),
+                 ('rsimvq', lambda: ResidualSimVQ(dim=3, num_quantizers=2, codebook_size=6, rotation_trick=False)),
+                 ('vq-learnable', lambda: VectorQuantize(dim=3, codebook_size=5, learnable_codebook=True, ema_update=False, rotation_trick=False)),
+                 ('vq-proj-rot', lambda: VectorQuantize(dim=4, codebook_dim=2, codebook_size=5, rotation_trick=True)),
+                 ('vq-orth-ema', lambda: VectorQuantize(dim=3, codebook_size=5, orthogonal_reg_weight=0.5)),
+                 ('lfq-proj', lambda: LFQ(dim=4, codebook_size=8)), ('fsq-proj', lambda: FSQ([5, 4], dim=3)), ('rvq-proj', lambda: ResidualVQ(dim=4, codebook_dim=2, num_quantizers=2, codebook_size=5))]
+    for fname, fmk in frozen_mk:
+        for which in ('all', 'first-parameter'):
+            try:
+                qa = fmk()
+                qa.train()
+                qb = _copy.deepcopy(qa)
+                if which == 'all':
+                    qb.requires_grad_(False)
+                else:
+                    next(iter(qb.parameters())).requires_grad_(False)
+                xj = torch.randn(1, 2, qa.dim if hasattr(qa, 'dim') and isinstance(qa.dim, int) else (4 if 'proj' in fname and fname != 'fsq-proj' else 3))
+                st = torch.get_rng_state()
+                Ja = jacobian(lambda inp: qa(inp, freeze_codebook=True)[0] if fname.startswith(('vq', 'rvq')) else qa(inp)[0], xj)
+                torch.set_rng_state(st)
+                Jb = jacobian(lambda inp: qb(inp, freeze_codebook=True)[0] if fname.startswith(('vq', 'rvq')) else qb(inp)[0], xj)
+                ev += 1
+                dist['frozen_parameter_jacobians'] = dist.get('frozen_parameter_jacobians', 0) + 1
+                if not torch.allclose(Ja, Jb, atol=1e-5, rtol=1e-4):
+                    fail(f'{fname}:input-jacobian-depends-on-frozen-parameters:{which}', f'{fname}: with requires_grad_(False) on {which} of its parameters the Jacobian of the output with respect to the input '
+                         f'differs from the trainable twin (max abs diff {(Ja - Jb).abs().max().item():g}; norm {Jb.norm().item():g} vs {Ja.norm().item():g})', dict(module=fname, which=which))
+            except Exception as ex:
+                fail(f'{fname}:frozen-parameters:exception:{type(ex).__name__}', f'{fname} ({which}): {ex!r}', dict(module=fname))
     # ------------------------------------------------------------------ FSQ / LFQ / LatentQuantize: derivative of the bounding / activation function
     for ci in range((8 if not ctx.thorough else 60) * scale):
         L = [2, 3, 4, 5, 8, 7][ci % 6]
